@@ -132,6 +132,12 @@ Quiescent(e) ==
 
 Recheck(e) == [ stable |-> e.changed = 0 ]
 
+\* a put into a store of tens of thousands of tiny items, near its capacity: sums of the bytes held before / after only
+Bulk(e) ==
+  [ frees    |-> (e.res = "ok" /\ e.pre + e.len > cap) => (e.pre + e.len - e.post >= Target(cap) \/ e.postcount = 0),
+    capacity |-> e.post <= cap,
+    sizeRec  |-> e.sizeRec >= e.post ]
+
 Init == /\ l = 1 /\ node = ZeroSeq(32) /\ cap = 0 /\ db = {} /\ rec = -1 /\ radius = MaxRad
         /\ everPut = {} /\ bigSeen = FALSE /\ viol = {}
 
@@ -157,6 +163,9 @@ Next ==
             /\ Flag(Reopen(e))
             /\ db' = ToSet(e.snap) /\ rec' = e.sizeRec /\ radius' = e.radius
             /\ UNCHANGED <<node, cap, everPut, bigSeen>>
+       [] e.ev = "bulk" ->
+            /\ Flag(Bulk(e))
+            /\ UNCHANGED <<node, cap, db, rec, radius, everPut, bigSeen>>
        [] e.ev = "recheck" ->
             /\ Flag(Recheck(e))
             /\ UNCHANGED <<node, cap, db, rec, radius, everPut, bigSeen>>
